@@ -136,19 +136,39 @@ def C07_IterDelivers (s : Store) (cid : Nat) (k : Str) (row : Nat) (v : V) : Pro
 theorem C07_iter_read_identical (s : Store) (hg : GoodS s) : C07_RoutesThen s C07_IterDelivers :=
   C07_routes_mono s Stored C07_IterDelivers (fun _ _ _ _ _ h l hl => h.iter l hl) (C07_routes_stored s hg)
 
-/-- **what cif_walk delivers** in state `s` for the cell (cid, k, row): wherever the item's container (handle `hC`) sits in the tree the
-    walker builds from the store — data block `B`, the container's node in or below it — a walk whose handlers always answer
-    CIF_TRAVERSE_CONTINUE calls the item handler with (k, v) and returns CIF_OK.  (`noEmptyLoops`: cif_walk ends with CIF_EMPTY_LOOP when
-    it meets a loop without packets — `C14_empty_loop`; the property makes no claim about such CIFs.) -/
-def C07_WalkDelivers (s : Store) (cid : Nat) (k : Str) (_row : Nat) (v : V) : Prop :=
+/-- **what cif_walk delivers** in state `s` for the cell (cid, k, row) — POSITIONALLY.  Through any valid handle `l` of the item's loop and
+    for the node of the item's OWN container (handle `hC`, `hC.id = cid`) in the tree the walker builds from the store (`wcontOf s fuel hC`;
+    where that node sits: `C07_walk_block_position` / `C07_walk_frame_position`), on a CIF without packet-less loop:
+    * the loop node walk_loop shows for THIS handle (`wloopOf s l`) is one of the loops of THAT container's node;
+    * it has exactly one packet per row of the loop, and the packet at the position `j` of THIS row among the loop's rows has the loop's
+      item names as keys, contains the entry (k, v) and answers `v` for item `k`;
+    * the walk with always-continuing handlers is the full depth-first traversal of the walker's tree and returns CIF_OK
+      (`fullTraversal`, Spec/Traversal: for every loop node, for every packet in order, packet_start, one item callback per entry of the
+      packet in order, packet_end) — so the item callbacks made for packet `j` of that loop of that container are exactly the entries of
+      `p`, the one for `k` carrying `v`.
+    Container, loop and row are in the CONCLUSION: a value of the same name in another block, loop or packet does not satisfy it. -/
+def C07_WalkDelivers (s : Store) (cid : Nat) (k : Str) (row : Nat) (v : V) : Prop :=
   ∀ l : LH, C07_HandleFor s.db l cid k →
-    ∀ (B : WCont) (fuel : Nat) (hC : CH), B ∈ wcifOf s → hC.id = cid → InCont (wcontOf s fuel hC) B → noEmptyLoops (wcifOf s) = true →
-      Ev.item k v ∈ (walkStore allCont s).1 ∧ (walkStore allCont s).2 = OK
+    ∀ (fuel : Nat) (hC : CH), hC.id = cid → noEmptyLoops (wcifOf s) = true →
+      wloopOf s l ∈ (wcontOf s fuel hC).loops ∧
+      (wloopOf s l).packets.length = (s.db.loopRows l.cid l.loopNum).length ∧
+      (∃ (j : Nat) (p : List (Str × V)), (s.db.loopRows l.cid l.loopNum)[j]? = some row ∧ (wloopOf s l).packets[j]? = some p ∧
+          pktGet p k = some v ∧ (k, v) ∈ p ∧ p.map (·.1) = (s.db.loopItems l.cid l.loopNum).map (·.name)) ∧
+      walkStore allCont s = (fullTraversal (wcifOf s), OK)
 
-/-- **C07_walk_read_identical** — … and cif_walk's item callback receives the stored value. -/
+/-- **C07_walk_read_identical** — … and cif_walk shows the stored value at the position of that container, loop and packet. -/
 theorem C07_walk_read_identical (s : Store) (hg : GoodS s) : C07_RoutesThen s C07_WalkDelivers :=
-  C07_routes_mono s Stored C07_WalkDelivers (fun _ _ _ _ _ h l hl B fuel hC hB hid hin hne => h.walk l hl B hB fuel hC hid hin hne)
+  C07_routes_mono s Stored C07_WalkDelivers (fun _ _ _ _ _ h l hl fuel hC hid hne => h.walkPos l hl fuel hC hid hne)
     (C07_routes_stored s hg)
+
+/-- the weaker, position-free corollary (the statement before review rB): wherever the container's node sits in the tree (block `B` of
+    the walker's tree, the node in or below it), the flat list of callbacks contains `handle_item(k, v)` -/
+theorem C07_walk_item_event (s : Store) (cid : Nat) (k : Str) (row : Nat) (v : V) (h : C07_WalkDelivers s cid k row v) (l : LH)
+    (hl : C07_HandleFor s.db l cid k) (B : WCont) (fuel : Nat) (hC : CH) (hB : B ∈ wcifOf s) (hid : hC.id = cid)
+    (hin : InCont (wcontOf s fuel hC) B) (hne : noEmptyLoops (wcifOf s) = true) :
+    Ev.item k v ∈ (walkStore allCont s).1 ∧ (walkStore allCont s).2 = OK := by
+  obtain ⟨hL, _, ⟨j, p, _, hp, _, hkv, _⟩, _⟩ := h l hl fuel hC hid hne
+  exact walk_delivers_item (wcifOf s) hne B _ hB hin _ hL p (List.mem_of_getElem? hp) k v hkv
 
 /-- for an item of a data block the tree-position hypotheses of `C07_WalkDelivers` hold with `B` the block's own node -/
 theorem C07_walk_block_position (s : Store) (hB : CH) (bs : List CH) (hbs : (allBlocks s).2 = .ok bs) (hm : hB ∈ bs) :
@@ -183,7 +203,10 @@ theorem C07_iteration_is_stored (s : Store) (hg : Good s.db) (hac : s.autocommit
 
 /-- **C07_get_value_flag** — cif_container_get_value on an item of a loop, in any state satisfying `Good`: no packet ⇒ CIF_NOSUCH_ITEM;
     exactly one packet ⇒ CIF_OK (`false`) with the value stored in it; two or more ⇒ CIF_AMBIGUOUS_ITEM (`true`) together with the value
-    stored in the FIRST packet (lowest row number) -/
+    stored in the packet of LOWEST row number.  That "lowest row number" is the row the real code steps to first is an ASSUMPTION about
+    SQLite, not a fact of the sources: GET_VALUE_SQL has no `order by`; the model's `valuesOf` sorts by row number because SQLite serves the
+    query from the primary-key index (container_id, name, row_num) — see ASSUMPTIONS of tools/props/C07.py; the API documents only
+    "one of the values". -/
 theorem C07_get_value_flag (s : Store) (hg : Good s.db) (h : CH) (n : Name) (hv : n.valid = true) (x : LoopRow) (hx : x ∈ s.db.loops)
     (hxc : x.cid = h.id) (i : ItemRow) (hi : i ∈ s.db.loopItems x.cid x.loopNum) (hik : i.name = n.key) :
     match s.db.loopRows h.id x.loopNum with
@@ -338,6 +361,10 @@ example : ((getValue sR3 hR (some (nmR (a!"_x")))).2.toOption.map (fun r => (r.1
 example : noEmptyLoops (wcifOf sR3) = true := by decide +kernel
 example : ((walkStore allCont sR3).1.filter (fun e => match e with | .item k v => k == a!"_x" && v == vR | _ => false)).length = 2 := by
   decide +kernel
+-- the positional conclusion, executed: the loop node the walker shows for handle lR is the (only) loop of block b's node, and its
+-- packets answer v for _x at positions 0 and 1 (rows 1 and 2)
+example : (wloopOf sR3 lR).packets.map (fun p => pktGet p (a!"_x") == some vR) = [true, true] := by decide +kernel
+example : (wcontOf sR3 1 hR).loops.length = 1 := by decide +kernel
 example : C07_HandleFor sR3.db lR 1 (a!"_x") := ⟨by decide +kernel, rfl, by decide +kernel⟩
 -- the update route: iterator on the two-packet loop, next, update_packet {_x: v} (through the codec), close; a fresh iterator then
 -- delivers v in packet 1 and the old value (unknown) in packet 2; the route's hypotheses (tied iterator, inside its transaction) are
